@@ -83,6 +83,17 @@ def gen_tz(rng):
     return rng.choice(["UTC", "Europe/Budapest", "America/Argentina/ComodRivadavia", "GMT+0", "Etc/GMT-14", rng.choice(n), rng.choice(n)])
 
 
+DST_EDGES = [
+    ((2021, 10, 31), (0, 30, 0), "Europe/London"), ((2021, 10, 31), (1, 30, 0), "Europe/London"),      # 01:30 BST, 01:30 GMT
+    ((2021, 3, 28), (0, 59, 59), "Europe/London"), ((2021, 3, 28), (1, 0, 0), "Europe/London"),
+    ((2021, 11, 7), (5, 30, 0), "America/New_York"), ((2021, 11, 7), (6, 30, 0), "America/New_York"),  # 01:30 EDT, 01:30 EST
+    ((2021, 3, 14), (6, 59, 59), "America/New_York"), ((2021, 3, 14), (7, 0, 0), "America/New_York"),
+    ((2021, 10, 31), (0, 30, 0), "Europe/Budapest"), ((2021, 10, 31), (1, 30, 0), "Europe/Budapest"),
+    ((2011, 12, 30), (9, 59, 59), "Pacific/Apia"), ((2011, 12, 30), (10, 0, 0), "Pacific/Apia"),        # a skipped day
+    ((1883, 11, 18), (17, 0, 0), "America/New_York"),                                                     # end of local mean time
+]
+
+
 def gen_chrono_value(rng, p):
     if p == "weekday":
         return "n" + str(rng.randrange(1, 8))
@@ -112,6 +123,10 @@ def gen_chrono_value(rng, p):
             if MIN_TS <= ndt_secs(ymd, hmsn) - off <= MAX_TS:
                 return f"(0 {show_ndt(ymd, hmsn)} z{off})"
     if p == "dt_tz":
+        if rng.random() < 0.25:
+            # instants inside the repeated / skipped local hour of a zone (the value is the UTC instant + the zone)
+            ymd, hms, z = rng.choice(DST_EDGES)
+            return f"(0 {show_ndt(ymd, hms + (rng.choice([0, 1, 999_999_999]),))} b{z.encode().hex()})"
         return f"(0 {show_ndt(gen_ymd(rng), gen_hmsn(rng))} b{gen_tz(rng).encode().hex()})"
     raise ValueError(p)
 
@@ -148,6 +163,34 @@ def show_ty(t):
     if k == "named":
         return f"(named {t[1]})"
     raise ValueError(t)
+
+
+def ty_of_text(text):
+    """inverse of show_ty"""
+    from . import sx as SX
+
+    def conv(x):
+        if isinstance(x, str):
+            return ("phantom",) if x == "phantom" else P(x)
+        h = x[0]
+        if h == "opt":
+            return ("opt", conv(x[1]))
+        if h == "res":
+            return ("res", conv(x[1]), conv(x[2]))
+        if h == "tup":
+            return ("tup", [conv(y) for y in x[1:]])
+        if h == "arr":
+            return ("seq", "arr", int(x[1]), conv(x[2]))
+        if h in ("vec", "ll", "hset", "bset", "slice"):
+            return ("seq", h, 0, conv(x[1]))
+        if h in ("hmap", "bmap"):
+            return ("map", h, conv(x[1]), conv(x[2]))
+        if h in ("box", "rc", "arc", "ref"):
+            return ("wrap", h, conv(x[1]))
+        if h == "named":
+            return ("named", int(x[1]))
+        raise ValueError(x)
+    return conv(SX.parse(text))
 
 
 def has_unordered(t):
